@@ -261,6 +261,10 @@ impl Shards {
 pub const MC_ALL: [u8; 15] = [0, 1, 2, 3, 4, 5, 6, 7, 8, 9, 10, 11, 12, 13, 14];
 pub const CP_ALL: [u8; 14] = [0, 1, 2, 3, 4, 5, 6, 7, 8, 9, 10, 11, 12, 22];
 pub const TC_ALL: [u8; 19] = [0, 1, 2, 3, 4, 5, 6, 7, 8, 9, 10, 11, 12, 13, 14, 15, 16, 17, 18];
+/// every value a LABEL can take without being resolved (all but Unspecified), supported by the curve stages or not:
+/// stages that do not use a label must ignore all of them
+pub const TC_LBL: [u8; 18] = [1, 4, 5, 6, 7, 8, 9, 10, 11, 13, 14, 15, 16, 18, 0, 3, 12, 17];
+pub const CP_LBL: [u8; 13] = [1, 4, 5, 6, 7, 8, 9, 10, 11, 12, 22, 0, 3];
 pub const MC_STD: [u8; 7] = [1, 4, 5, 6, 7, 8, 9];
 pub const TC_SUP: [u8; 14] = [1, 4, 5, 6, 7, 8, 9, 10, 11, 13, 14, 15, 16, 18];
 pub const CP_SUP: [u8; 11] = [1, 4, 5, 6, 7, 8, 9, 10, 11, 12, 22];
@@ -356,6 +360,11 @@ pub fn probe_indices(n: usize, w: usize, rng: &mut Rng) -> Vec<usize> {
 }
 /// sizes of the LARGE probe images: above typical "parallelise / vectorise from here on" thresholds (>= 512*512 pixels),
 /// with pixel counts that are not multiples of 2, 4, 8 or 16
+/// frames of more than 2^20 pixels in the shapes that size-triggered code paths (tables, threads, vector loops) meet in
+/// practice: full HD, one single row, one single column, a 2^21+ rectangle
+pub fn huge(k: usize) -> (usize, usize) {
+    [(1920, 1080), (1_048_579, 1), (1, 1_048_581), (2049, 1025)][k % 4]
+}
 pub fn big(k: usize) -> (usize, usize) {
     [(521, 509), (311, 227), (513, 513), (1031, 257)][k % 4]
 }
